@@ -17,6 +17,7 @@ and the hydrodynamic part vanishes by itself (`cog9_energy_hydro`).
 import EPV.Gen.Cog9D
 import EPV.Spec.Euler1D
 import EPV.Lemmas.Euler1D
+import EPV.Lemmas.HydroRobust
 import EPV.Tactics
 
 set_option linter.all false
@@ -32,10 +33,10 @@ theorem cog9_mass (p : Cog9.P) (r t : ℝ) (hr : 0 < r) (ht : 0 < t) (hα0 : p.a
     (hc : 2 + (p.gamma - 1) * ((p.geometry - 1) + 1) ≠ 0) :
     massRes (Cog9.L1.density p) (Cog9.L1.velocity p) (p.geometry - 1) r t = 0 := by
   unfold massRes dr dt
-  rw [(Cog9.L1.density_hasDerivAt_t p r t ht).deriv, (Cog9.L1.density_hasDerivAt_r p r t hr).deriv,
-    (Cog9.L1.velocity_hasDerivAt_r p r t).deriv]
+  epv_hydro_rw_derivs [Cog9.L1.density_hasDerivAt_t p r t, Cog9.L1.density_hasDerivAt_r p r t,
+    Cog9.L1.velocity_hasDerivAt_r p r t]
   simp only [epv_deriv, epv_leaf]
-  field_simp
+  epv_hydro_field_simp
   ring
 
 theorem cog9_momentum (p : Cog9.P) (r t : ℝ) (hr : 0 < r) (ht : 0 < t) (hα0 : p.alpha ≠ 0)
@@ -43,14 +44,10 @@ theorem cog9_momentum (p : Cog9.P) (r t : ℝ) (hr : 0 < r) (ht : 0 < t) (hα0 :
     (hD : 2 * p.alpha - 2 * p.beta - (p.geometry - 1) - 7 ≠ 0) (hρ : p.rho0 ≠ 0) :
     momResT (Cog9.L1.density p) (Cog9.L1.velocity p) (Cog9.L1.temperature p) p.Gamma r t = 0 := by
   unfold momResT dr dt
-  rw [(Cog9.L1.velocity_hasDerivAt_t p r t ht.ne').deriv, (Cog9.L1.velocity_hasDerivAt_r p r t).deriv,
-    (Cog9.L1.density_hasDerivAt_r p r t hr).deriv, (Cog9.L1.temperature_hasDerivAt_r p r t).deriv]
+  epv_hydro_rw_derivs [Cog9.L1.velocity_hasDerivAt_t p r t, Cog9.L1.velocity_hasDerivAt_r p r t,
+    Cog9.L1.density_hasDerivAt_r p r t, Cog9.L1.temperature_hasDerivAt_r p r t]
   simp only [epv_deriv, epv_leaf]
-  have h1 := Real.rpow_pos_of_pos hr ((-((((2 : ℝ) * p.beta) + (p.geometry - (1 : ℝ))) + (7 : ℝ))) / p.alpha)
-  have h2 := Real.rpow_pos_of_pos ht ((((-2 : ℝ) * ((p.alpha * ((p.geometry - (1 : ℝ)) + (1 : ℝ))) - ((((2 : ℝ) * p.beta) + (p.geometry - (1 : ℝ))) + (7 : ℝ)))) / p.alpha) / ((2 : ℝ) + ((p.gamma - (1 : ℝ)) * ((p.geometry - (1 : ℝ)) + (1 : ℝ)))))
-  have hD' : 2 * (p.alpha - p.beta) - (p.geometry - 1) - 7 ≠ 0 := by
-    intro h; apply hD; linarith
-  field_simp
+  epv_hydro_field_simp
   ring
 
 theorem cog9_energy_hydro (p : Cog9.P) (r t : ℝ) (hr : 0 < r) (ht : 0 < t)
@@ -58,10 +55,10 @@ theorem cog9_energy_hydro (p : Cog9.P) (r t : ℝ) (hr : 0 < r) (ht : 0 < t)
     (hD : 2 * p.alpha - 2 * p.beta - (p.geometry - 1) - 7 ≠ 0) (hγ : p.gamma - 1 ≠ 0) :
     energyHydroT (Cog9.L1.velocity p) (Cog9.L1.temperature p) p.Gamma p.gamma (p.geometry - 1) r t = 0 := by
   unfold energyHydroT dr dt
-  rw [(Cog9.L1.temperature_hasDerivAt_t p r t ht.ne').deriv, (Cog9.L1.velocity_hasDerivAt_r p r t).deriv,
-    (Cog9.L1.temperature_hasDerivAt_r p r t).deriv]
+  epv_hydro_rw_derivs [Cog9.L1.temperature_hasDerivAt_t p r t, Cog9.L1.velocity_hasDerivAt_r p r t,
+    Cog9.L1.temperature_hasDerivAt_r p r t]
   simp only [epv_deriv, epv_leaf]
-  field_simp
+  epv_hydro_field_simp
   ring
 
 /-- near r the documented flux of the returned fields is the generated `heat_flux` -/
@@ -69,7 +66,7 @@ theorem cog9_flux_near (p : Cog9.P) (r t : ℝ) :
     (fun x => heatFlux (Cog9.L1.density p) (Cog9.L1.temperature p) p.c_light p.a_rad p.lam0_ p.alpha_ p.beta_ x t)
       =ᶠ[𝓝 r] fun x => Cog9.L1.heat_flux p x t :=
   heatFlux_eventuallyEq (G' := fun x => Cog9.L1.aT4_dr p x t) univ_mem
-    (fun x _ => Cog9.L1.aT4_hasDerivAt_r p x t)
+    (fun x _ => by epv_hydro_cert Cog9.L1.aT4_hasDerivAt_r p x t)
 
 /-- the flux is divergence free: ∂_r F + k F / r = 0 -/
 theorem cog9_flux_div (p : Cog9.P) (r t : ℝ) (hr : 0 < r) (ht : 0 < t) (hα0 : p.alpha ≠ 0)
@@ -84,14 +81,8 @@ theorem cog9_flux_div (p : Cog9.P) (r t : ℝ) (hr : 0 < r) (ht : 0 < t) (hα0 :
   obtain ⟨B, hB⟩ : ∃ B, Cog9.L1.temperature p r t ^ p.beta = B := ⟨_, rfl⟩
   simp only [epv_leaf] at hA hB
   rw [hA, hB]
-  have h1 := Real.rpow_pos_of_pos hr ((-((((2 : ℝ) * p.beta) + (p.geometry - (1 : ℝ))) + (7 : ℝ))) / p.alpha)
-  have h2 := Real.rpow_pos_of_pos ht ((((-2 : ℝ) * ((p.alpha * ((p.geometry - (1 : ℝ)) + (1 : ℝ))) - ((((2 : ℝ) * p.beta) + (p.geometry - (1 : ℝ))) + (7 : ℝ)))) / p.alpha) / ((2 : ℝ) + ((p.gamma - (1 : ℝ)) * ((p.geometry - (1 : ℝ)) + (1 : ℝ)))))
-  have hD' : 2 * (p.alpha - p.beta) - (p.geometry - 1) - 7 ≠ 0 := by
-    intro h; apply hD; linarith
   clear hA hB
-  have hc' : 2 + (p.geometry - 1 + 1) * (p.gamma - 1) ≠ 0 := by
-    intro h; apply hc; linarith
-  field_simp
+  epv_hydro_field_simp
   ring
 
 theorem cog9_energy (p : Cog9.P) (r t : ℝ) (hr : 0 < r) (ht : 0 < t) (hα0 : p.alpha ≠ 0)
@@ -101,10 +92,10 @@ theorem cog9_energy (p : Cog9.P) (r t : ℝ) (hr : 0 < r) (ht : 0 < t) (hα0 : p
     (hα : p.alpha_ = p.alpha) (hβ : p.beta_ = p.beta) :
     energyResT (Cog9.L1.density p) (Cog9.L1.velocity p) (Cog9.L1.temperature p) p.Gamma p.gamma
       (p.geometry - 1) p.c_light p.a_rad p.lam0_ p.alpha_ p.beta_ r t = 0 := by
-  have hρ' : 0 < Cog9.L1.density p r t := by
-    simp only [epv_leaf]; positivity
-  exact energyResT_zero_of_split (cog9_flux_near p r t)
-    (Cog9.L1.heat_flux_hasDerivAt_r p r t hr hρ' hT)
+  have hF : HasDerivAt (fun x => Cog9.L1.heat_flux p x t) (Cog9.L1.heat_flux_dr p r t) r := by
+    simp only [epv_leaf] at hT
+    epv_hydro_cert Cog9.L1.heat_flux_hasDerivAt_r p r t
+  exact energyResT_zero_of_split (cog9_flux_near p r t) hF
     (cog9_energy_hydro p r t hr ht hc hΓ hD hγ) (cog9_flux_div p r t hr ht hα0 hc hΓ hD hγ hk hρ.ne' hα hβ)
 
 /-- non-vacuity: the hypotheses hold for α = -3/2 (inside the range [-2,-1] the constructor checks) and
